@@ -19,6 +19,7 @@ import (
 	gast "github.com/vektah/gqlparser/v2/ast"
 
 	"github.com/wundergraph/graphql-go-tools/execution/engine"
+	"github.com/wundergraph/graphql-go-tools/v2/pkg/engine/postprocess"
 	"github.com/wundergraph/graphql-go-tools/v2/pkg/engine/resolve"
 
 	"verifharness/internal/fed"
@@ -42,7 +43,7 @@ func (c16) NumCases(tier string) int {
 }
 
 func (c16) Rule() string {
-	return "four case kinds by idx%10. [6-9] TRANSPARENCY history: generated federation layout (as C01, no mutations) over a hash-defined universe with an entity id pool of 2-5; two real ExecutionEngines over identical semantic subgraphs, one given a recording in-memory caching.Cache through resolve.Context.SetResponseCache, one without; a history of 10-16 requests = 2-3 generated base operations (each sends >=1 _entities request) plus requests DERIVED from earlier ones (exact repeat; new lookup ids from the pool -> other / overlapping representation sets; new variable values; one leaf added / dropped in a nested selection -> other selection; root reordered / extended; a nullable variable flipped between omitted and explicit null); every subgraph response carries a Cache-Control header drawn from a generated grammar (85% storable) or from a plain storable list; the cache misbehaves by rotating policy (none | GetMany errors, also with an answer attached | SetMany errors with nothing / everything / a prefix written | withheld keys and empty answers = partial hits | evictions between requests | all mixed). In every second history (and all concurrent ones) each subgraph answer of the cached gateway is delayed 40-200us so that parallel fetches overlap (schedule only, no verdict depends on it). Oracle: canonical JSON of response i with cache == response i without cache (re-checked for instability of the cache-less run), Execute never fails or panics when the cache-less run does not. [3-5] STORABILITY history: same, 50% storable headers, and subgraph faults per (request, subgraph, operation): semantic body under status 201/203/206/300/304/399/400/404/500/503, body with data AND errors, errors without data, empty 500, first entity null (not found), and 2xx answers to entity fetches that are unusable (non-JSON, truncated JSON, {\"data\":null}, {\"data\":{}}, one entity too few / too many; also alone in a third of the transparency histories) — under a content-altering fault response i is compared (error entries as a multiset) whenever both gateways sent the same requests and so received the same faulted answers, the rendered error response of the cache-less engine being the reference, and Execute returning an error only with the cache is a violation; every SetMany item is attributed to the subgraph response(s) of the same gateway request whose _entities values it carries (positions through the preceding GetMany key list) and must come from a 2xx, error-free response whose header — read by an independent RFC 9111 reference tokeniser — has `public`, none of no-store/no-cache/private, and ttl <= first s-maxage else first max-age (1*DIGIT, token or quoted, saturating) else the request's default TTL; malformed headers are judged in the safe direction only (refusal word or no `public` anywhere), invalid delta-seconds by the weak bound max(named lifetimes, default). [1-2] CONCURRENT history: 3-6 goroutines execute rotations of one history against one shared cache (header a function of the response body, light cache faults), responses compared with the sequential cache-less run, all stores judged, -race. [0] PARSER corpus: 4000 generated header values (+ the exhaustive set of all ordered subsets of {public, private, no-store, no-cache, max-age=60, s-maxage=30} in the first case) straight through caching.TTL against the reference. Non-trivial: history = >=1 response compared after a full cache hit was served (storability: >=1 store judged and >=1 unstorable entity response); parser = both decisions seen. Distinct by hash of (layout, request text, variables, position) resp. header value."
+	return "four case kinds by idx%10. [6-9] TRANSPARENCY history: generated federation layout (as C01, no mutations) over a hash-defined universe with an entity id pool of 2-5; two real ExecutionEngines over identical semantic subgraphs, one given a recording in-memory caching.Cache through resolve.Context.SetResponseCache, one without; a history of 10-16 requests = 2-3 generated base operations (each sends >=1 _entities request) plus requests DERIVED from earlier ones (exact repeat; new lookup ids from the pool -> other / overlapping representation sets; new variable values; one leaf added / dropped in a nested selection -> other selection; root reordered / extended; a nullable variable flipped between omitted and explicit null); every subgraph response carries a Cache-Control header drawn from a generated grammar (85% storable) or from a plain storable list; the cache misbehaves by rotating policy (none | GetMany errors, also with an answer attached | SetMany errors with nothing / everything / a prefix written | withheld keys and empty answers = partial hits | evictions between requests | all mixed). Option dimension: in the histories with idx%10 = 9 (transparency), 5 (storability) and every second idx%10 = 2 (concurrent) the cache is attached with a NIL error callback while GetMany / SetMany errors (15% each at least) and, where the kind has them, unusable entity answers are injected; both engines of such a history plan without parallel fetch nodes, so that a panic on the cache path surfaces on the calling goroutine, is recovered and reported as violation `panic` (match on_error_callback=nil) and the history ends. Nothing is asserted about how many reports a non-nil callback receives. In every second history (and all concurrent ones) each subgraph answer of the cached gateway is delayed 40-200us so that parallel fetches overlap (schedule only, no verdict depends on it). Oracle: canonical JSON of response i with cache == response i without cache (re-checked for instability of the cache-less run), Execute never fails or panics when the cache-less run does not. [3-5] STORABILITY history: same, 50% storable headers, and subgraph faults per (request, subgraph, operation): semantic body under status 201/203/206/300/304/399/400/404/500/503, body with data AND errors, errors without data, empty 500, first entity null (not found), and 2xx answers to entity fetches that are unusable (non-JSON, truncated JSON, {\"data\":null}, {\"data\":{}}, one entity too few / too many; also alone in a third of the transparency histories) — under a content-altering fault response i is compared (error entries as a multiset) whenever both gateways sent the same requests and so received the same faulted answers, the rendered error response of the cache-less engine being the reference, and Execute returning an error only with the cache is a violation; every SetMany item is attributed to the subgraph response(s) of the same gateway request whose _entities values it carries (positions through the preceding GetMany key list) and must come from a 2xx, error-free response whose header — read by an independent RFC 9111 reference tokeniser — has `public`, none of no-store/no-cache/private, and ttl <= first s-maxage else first max-age (1*DIGIT, token or quoted, saturating) else the request's default TTL; malformed headers are judged in the safe direction only (refusal word or no `public` anywhere), invalid delta-seconds by the weak bound max(named lifetimes, default). [1-2] CONCURRENT history: 3-6 goroutines execute rotations of one history against one shared cache (header a function of the response body, light cache faults), responses compared with the sequential cache-less run, all stores judged, -race. [0] PARSER corpus: 4000 generated header values (+ the exhaustive set of all ordered subsets of {public, private, no-store, no-cache, max-age=60, s-maxage=30} in the first case) straight through caching.TTL against the reference. Non-trivial: history = >=1 response compared after a full cache hit was served (storability: >=1 store judged and >=1 unstorable entity response); parser = both decisions seen. Distinct by hash of (layout, request text, variables, position) resp. header value."
 }
 
 func (c16) Assumptions() []string {
@@ -64,6 +65,7 @@ func (c16) RequiredCounters(string) []string {
 		"get_errors_injected", "set_errors_injected", "partial_answers_injected", "evicted_entries",
 		"store_items_judged_ok", "entity_responses_unstorable", "entity_responses_unstorable_not_stored",
 		"concurrent_executions", "concurrent_responses_compared",
+		"histories_with_nil_error_callback", "requests_with_cache_failure_under_nil_error_callback",
 		"responses_compared_under_same_content_altering_subgraph_fault", "unusable_2xx_entity_answers_with_cache", "unusable_2xx_entity_answers_on_batch_fetch", "unusable_2xx_entity_answers_on_single_fetch",
 		"parser_headers", "parser_positive_decisions", "parser_negative_decisions",
 	}
@@ -331,6 +333,9 @@ type history struct {
 	pStor    int
 	plain    bool
 	subFault bool
+	// nilCB: SetResponseCache(cache, ttl, nil)
+	nilCB   bool
+	stopped atomic.Bool
 	// unusableOnly: (transparency histories) the only subgraph faults are unusable 2xx answers to entity fetches
 	unusableOnly bool
 	bodyHdr      bool // header is a function of (subgraph, body) only (concurrent mode)
@@ -419,8 +424,19 @@ func (h *history) responses() []*respRec {
 func (h *history) withCache(i int) engine.ExecutionOptions {
 	d := h.defTTL[i%len(h.defTTL)]
 	return engine.VerifWithResolveContext(func(rc *resolve.Context) {
-		rc.SetResponseCache(h.cache, d, h.cache.onError)
+		var cb func(error)
+		if !h.nilCB {
+			cb = h.cache.onError
+		}
+		rc.SetResponseCache(h.cache, d, cb)
 	})
+}
+
+func (h *history) cbFact() string {
+	if h.nilCB {
+		return "nil"
+	}
+	return "set"
 }
 
 func statusClass(s int) string { return fmt.Sprintf("%dxx", s/100) }
@@ -804,6 +820,9 @@ func runHistory(c *fw.Ctx, idx int, kind string) fw.Result {
 	pool := 2 + r.IntN(4)
 	u := &ref.Universe{Seed: r.Uint64(), Schema: superGql, NullRate: r.IntN(3), Entities: ents, PoolSize: pool, MaxList: 2 + r.IntN(3)}
 	gopts := fed.GatewayOptions{MultiFetch: r.IntN(10) == 0, ScheduleFetch: r.IntN(10) == 0}
+	// option dimension: the cache is attached with a nil error callback (a supported configuration) while cache
+	// failures are injected. Chosen by idx only (no random draw, the other cases stay what they were).
+	nilCB := (kind == "transparency" && idx%10 == 9) || (kind == "storability" && idx%10 == 5) || (kind == "concurrent" && idx%10 == 2 && (idx/10)%2 == 0)
 	gwN, err := fed.NewGateway(l, superGql, u, gopts)
 	if err != nil {
 		res.Broken("gateway construction: "+err.Error(), layoutDetail())
@@ -816,8 +835,15 @@ func runHistory(c *fw.Ctx, idx int, kind string) fw.Result {
 		return res
 	}
 	defer gwC.Close()
+	if nilCB {
+		// a panic raised in one of the engine's own fetch goroutines cannot be recovered by the harness and would
+		// take the worker down; with parallel fetch nodes off every fetch runs on the goroutine that called Execute,
+		// so a panic on the cache path is recovered and reported as a violation of this case
+		gwN.Engine.VerifSetPostProcessorOptions(postprocess.DisableCreateParallelNodes())
+		gwC.Engine.VerifSetPostProcessorOptions(postprocess.DisableCreateParallelNodes())
+	}
 
-	h := &history{res: &res, kind: kind, l: l, salt: fmt.Sprintf("%d/%d", c.Seed, idx), cache: newRecCache(r.Uint64())}
+	h := &history{nilCB: nilCB, res: &res, kind: kind, l: l, salt: fmt.Sprintf("%d/%d", c.Seed, idx), cache: newRecCache(r.Uint64())}
 	var faults cacheFaults
 	policy := "none"
 	switch kind {
@@ -852,6 +878,16 @@ func runHistory(c *fw.Ctx, idx int, kind string) fw.Result {
 		if r.IntN(2) == 0 {
 			faults, policy = cacheFaults{GetErr: 80, SetErr: 80, DropKey: 120, MissAll: 30}, "mixed"
 		}
+	}
+	if nilCB {
+		if faults.GetErr == 0 {
+			faults.GetErr = 150
+		}
+		if faults.SetErr == 0 {
+			faults.SetErr = 150
+		}
+		policy += "+get/set-errors(nil callback)"
+		res.Count("histories_with_nil_error_callback", 1)
 	}
 	h.cache.setFaults(faults)
 	res.Observe("cache_fault_policies", kind+":"+policy)
@@ -1067,7 +1103,27 @@ func (h *history) runSequential(gwN, gwC *fed.Gateway, layoutDetail func() map[s
 		if twin {
 			res.Count("requests_with_entity_fetch_twin_null_vs_absent_variable", 1)
 		}
-		match := map[string]string{"hit_served": fmt.Sprint(fullHit), "cache_faults": faultStr, "concurrent": "false", "derivation": rq.Deriv, "entity_fetch_differs_from_another_only_in_null_vs_absent_variable": fmt.Sprint(twin), "subgraph_faults": fmt.Sprint(h.subFault)}
+		match := map[string]string{"hit_served": fmt.Sprint(fullHit), "cache_faults": faultStr, "concurrent": "false", "derivation": rq.Deriv, "entity_fetch_differs_from_another_only_in_null_vs_absent_variable": fmt.Sprint(twin), "subgraph_faults": fmt.Sprint(h.subFault), "on_error_callback": h.cbFact()}
+		if h.nilCB {
+			res.Count("requests_under_nil_error_callback", 1)
+			nf := 0
+			for _, c := range calls {
+				if c.Fault == "get-error" || c.Fault == "set-error" {
+					nf++
+				}
+			}
+			for _, q := range resps {
+				for _, k := range unusable2xx {
+					if q.Rec.Faulted == k {
+						nf++
+					}
+				}
+			}
+			if nf > 0 {
+				res.Count("requests_with_cache_failure_under_nil_error_callback", 1)
+				res.Count("cache_failures_under_nil_error_callback", int64(nf))
+			}
+		}
 		detail := func(extra map[string]any) map[string]any {
 			d := layoutDetail()
 			d["request_index"], d["history"] = i, historyDump(i)
@@ -1085,8 +1141,10 @@ func (h *history) runSequential(gwN, gwC *fed.Gateway, layoutDetail func() map[s
 			return d
 		}
 		if pc != nil {
-			res.Violate("panic", "the engine panicked with a response cache attached: "+pc.msg, withFact(match, "panic", pc.sig), detail(map[string]any{"stack": pc.stack}))
-			continue
+			res.Violate("panic", "the engine panicked with a response cache attached (error callback "+h.cbFact()+"): "+pc.msg, withFact(match, "panic", pc.sig), detail(map[string]any{"stack": pc.stack}))
+			// the engine may be left with resources held by the aborted request: the history ends here
+			res.Count("histories_ended_by_a_panic", 1)
+			break
 		}
 		if rc.Err != nil {
 			res.Violate("execute-error-with-cache", "Execute fails with the cache attached although the same request succeeds without: "+rc.Err.Error(), match, detail(nil))
@@ -1232,9 +1290,15 @@ func (h *history) runConcurrent(r *rand.Rand, gwN, gwC *fed.Gateway, layoutDetai
 				if !usable[i] {
 					continue
 				}
+				if h.stopped.Load() {
+					return
+				}
 				tag := g*1000 + i
 				rc, pi := safeExec(gwC, withReqTag(context.Background(), tag), h.seq[i], h.withCache(i))
 				results[g] = append(results[g], out{g, k, i, rc, pi})
+				if pi != nil {
+					h.stopped.Store(true)
+				}
 			}
 		}()
 	}
@@ -1272,7 +1336,14 @@ func (h *history) runConcurrent(r *rand.Rand, gwN, gwC *fed.Gateway, layoutDetai
 			if fs == "" {
 				fs = "none"
 			}
-			match := map[string]string{"hit_served": fmt.Sprint(hitByTag[tag]), "cache_faults": fs, "concurrent": "true", "derivation": rq.Deriv, "entity_fetch_differs_from_another_only_in_null_vs_absent_variable": fmt.Sprint(na.collides(sigReqs[o.i])), "subgraph_faults": "false"}
+			match := map[string]string{"hit_served": fmt.Sprint(hitByTag[tag]), "cache_faults": fs, "concurrent": "true", "derivation": rq.Deriv, "entity_fetch_differs_from_another_only_in_null_vs_absent_variable": fmt.Sprint(na.collides(sigReqs[o.i])), "subgraph_faults": "false", "on_error_callback": h.cbFact()}
+			if h.nilCB {
+				res.Count("requests_under_nil_error_callback", 1)
+				if fs == "get-error" || fs == "set-error" {
+					res.Count("requests_with_cache_failure_under_nil_error_callback", 1)
+					res.Count("cache_failures_under_nil_error_callback", 1)
+				}
+			}
 			var myCalls []*cacheCall
 			for _, c := range calls {
 				if c.Tag == tag {
@@ -1287,7 +1358,7 @@ func (h *history) runConcurrent(r *rand.Rand, gwN, gwC *fed.Gateway, layoutDetai
 				return d
 			}
 			if o.pi != nil {
-				res.Violate("panic", "the engine panicked with a shared response cache attached: "+o.pi.msg, withFact(match, "panic", o.pi.sig), wd(map[string]any{"stack": o.pi.stack}))
+				res.Violate("panic", "the engine panicked with a shared response cache attached (error callback "+h.cbFact()+"): "+o.pi.msg, withFact(match, "panic", o.pi.sig), wd(map[string]any{"stack": o.pi.stack}))
 				continue
 			}
 			if o.rc.Err != nil {
